@@ -185,11 +185,39 @@ Definition run_rdv (args : list bytes) : option bytes :=
   | _ => None
   end.
 
+(* ---------- broker twin-endpoint op ---------- *)
+
+(* broker <scenario> <answer> <body> <urlpath> <poststatus> <postbody> <errresp>:
+   IPC.ClientOffers on <body> is what the POST endpoint showed; armor is left out (the
+   driver prints the armor-decoded AMP body) *)
+Definition run_broker (args : list bytes) : option bytes :=
+  match args with
+  | [op; _; _; body; upath; pst; pbody; errresp] =>
+      if beq op (bs "broker") then
+        match payload_parse body, payload_parse upath, dec_parse pst, payload_parse pbody with
+        | Some body, Some upath, Some pst, Some pbody =>
+            let co := fun b : bytes => if beq b body then (if pst =? 200 then Some pbody else None)
+                                       else Some (bs "!other-body") in
+            let er := match split_on COMMA errresp with
+                      | [st; b] => if beq st (bs "200") then payload_parse b else None
+                      | _ => None
+                      end in
+            let r := amp_handler co (fun x => x) er upath in
+            Some (bs "amp=" ++ dec_print (h_status r) ++ [COMMA] ++ xhex (h_body r))
+        | _, _, _, _ => None
+        end
+      else None
+  | _ => None
+  end.
+
 Definition run (args : list bytes) : bytes :=
   match run_path args with
   | Some r => r
   | None => match run_cache args with
             | Some r => r
-            | None => match run_rdv args with Some r => r | None => ERR_BADCASE end
+            | None => match run_rdv args with
+                      | Some r => r
+                      | None => match run_broker args with Some r => r | None => ERR_BADCASE end
+                      end
             end
   end.
